@@ -111,48 +111,44 @@ def check_spine_twins(ctx, db):
 
 
 def check_placement(ctx, db):
-    rf, lf = db.fn('gdstk::Reference::transform'), db.fn('gdstk::Label::transform')
-    ctx.touch(rf)
-    ctx.touch(lf)
-    clone.check_family(ctx, 'R-CLONE', 'placement', [('Reference::transform', rf.loc(), canon(rf)), ('Label::transform', lf.loc(), canon(lf))], 2)
-    for lab, f in (('Reference::transform', rf), ('Label::transform', lf)):
-        txt = canon(f)
-        r1 = next((v for v in f.walk() if v.k == 'VarDecl' and v.n == 'r1'), None)
-        if r1 is None:
-            r1 = next((v for v in f.walk() if v.k == 'VarDecl' and v.child('init') is not None and v.child('init').k == 'ConditionalOperator'), None)
-        ok = r1 is not None and {x.n for x in r1.child('init').walk() if x.k in ('DeclRefExpr', 'MemberExpr')} == {'x_refl'} and r1.child('init').child('then').cv == -1 and r1.child('init').child('else').cv == 1
-        ctx.check(ok, 'R-DEP', lab + '/r1', f.loc(), 'the sign r1 = x_refl ? -1 : 1 depends only on the incoming reflection',
-                  'the reflection sign does not depend only on the incoming `x_refl` (e.g. computed after the reference\'s own flag was updated)')
-        want = ['(this->rotation = ((v0 * this->rotation) + $rot))', '(this->magnification *= $mag)', '(this->x_reflection ^= $x_refl)']
-        lines = [re.sub(r'<[A-Za-z]+:(?!:)[^>]*>', '', l.strip()) for l in txt.splitlines()]
-        ok = all(w in lines for w in want)
-        ctx.check(ok, 'R-SHAPE', lab + '/composition', f.loc(), 'rotation = r1*rotation + rot; magnification *= mag; x_reflection ^= x_refl',
-                  'placement composition differs from rotation = r1*rotation + rot; magnification *= mag; x_reflection ^= x_refl: %s' % lines[-3:])
-        ox = next((x for x in f.walk() if is_assign(x) and x.child('lhs').text() == 'this->origin.x'), None)
-        oy = next((x for x in f.walk() if is_assign(x) and x.child('lhs').text() == 'this->origin.y'), None)
-        ok = ox is not None and oy is not None and 'this->origin' not in oy.child('rhs').text() and 'this->origin' not in ox.child('rhs').text()
-        ctx.check(ok, 'R-DEP', lab + '/origin-captured', f.loc(), 'both new origin components are computed from the captured old origin (no read of the half-updated origin)')
-        roles = {}
-        for v in f.walk():
-            if v.k == 'VarDecl' and v.child('init') is not None:
-                it = v.child('init').text()
-                if v.child('init').k == 'ConditionalOperator':
-                    roles[v.d] = 'R1'
-                elif it.startswith('cos('):
-                    roles[v.d] = 'COS'
-                elif it.startswith('sin('):
-                    roles[v.d] = 'SIN'
-                elif it == 'this->origin.x':
-                    roles[v.d] = 'X'
-                elif it == 'this->origin.y':
-                    roles[v.d] = 'Y'
-        pren = clone.Renamer(f, params_by_name=True)
-        ren = lambda n: roles.get(n.d) or pren(n)
-        tx = ox.child('rhs').text(ren) if ox is not None else ''
-        ty = oy.child('rhs').text(ren) if oy is not None else ''
-        tx, ty = [re.sub(r'<[A-Za-z]+:(?!:)[^>]*>', '', t) for t in (tx, ty)]
-        okf = tx == '($orig.x + ($mag * ((X * COS) - ((R1 * Y) * SIN))))' and ty == '($orig.y + ($mag * ((X * SIN) + ((R1 * Y) * COS))))'
-        ctx.check(okf, 'R-SHAPE', lab + '/origin-map', f.loc(), "origin' = orig + mag * R(rot) * (x, r1*y)", "origin map differs from orig + mag*(x cos - r1 y sin, x sin + r1 y cos): x: %s ; y: %s" % (tx, ty))
+    """Reference::transform and Label::transform, interpreted (sa/minieval; cos / sin answered in floating point) for the four
+    combinations of the incoming reflection and the element's own, on an element with origin (3, -4), rotation 0.3 and
+    magnification 1.5 placed by (mag 2, rot 0.7, orig (10, 20)): the stored placement must be T o P - origin' = orig + mag R(rot)
+    (x, r y), rotation' = r rotation + rot with r = -1 under an incoming reflection, magnification' = magnification mag,
+    x_reflection' = x_reflection xor x_refl. A sign taken from the element's flag after it was updated, an origin component read
+    after the other was overwritten, a rotation that is not negated - all show as a wrong number; the statement form does not enter."""
+    import math
+    from .. import minieval as M
+    for lab, qn in (('Reference::transform', 'gdstk::Reference::transform'), ('Label::transform', 'gdstk::Label::transform')):
+        f = db.fn(qn)
+        ctx.touch(f)
+        bad = []
+        for x_refl in (0, 1):
+            for own in (0, 1):
+                this = M.Obj(origin=M.Obj(x=3.0, y=-4.0), rotation=0.3, magnification=1.5, x_reflection=own)
+
+                def hook(callee, args, node):
+                    if callee in ('cos', 'sin'):
+                        return (getattr(math, callee)(float(args[0])),)
+                    return None
+                mi = M.Mini(db, hook=hook, budget=5000)
+                mi.obj_store = True
+                env = {'this': this}
+                vals = {'mag': 2.0, 'x_refl': x_refl, 'rot': 0.7, 'orig': M.Obj(x=10.0, y=20.0)}
+                for p_, key in zip(f.params, ('mag', 'x_refl', 'rot', 'orig')):
+                    env[p_['n']] = vals[key]
+                try:
+                    mi.run(f.body, env)
+                except M.Return:
+                    pass
+                r = -1.0 if x_refl else 1.0
+                want = (10.0 + 2.0 * (3.0 * math.cos(0.7) - r * -4.0 * math.sin(0.7)), 20.0 + 2.0 * (3.0 * math.sin(0.7) + r * -4.0 * math.cos(0.7)), r * 0.3 + 0.7, 3.0, own ^ x_refl)
+                got = (float(this['origin']['x']), float(this['origin']['y']), float(this['rotation']), float(this['magnification']), int(bool(this['x_reflection'])))
+                if any(abs(a - b) > 1e-9 for a, b in zip(got, want)):
+                    bad.append('incoming reflection %d on an element with x_reflection %d: (origin.x, origin.y, rotation, magnification, x_reflection) = %s, T o P gives %s' % (x_refl, own, tuple(round(v, 6) for v in got), tuple(round(v, 6) for v in want)))
+        ctx.explored['valuations'] += 4
+        ctx.check(not bad, 'R-SHAPE', lab + '/composition', f.loc(), "the four reflection combinations store T o P: origin' = orig + mag R(rot)(x, r y), rotation' = r rotation + rot, magnification' = magnification mag, x_reflection' = x_reflection xor x_refl",
+                  'placement composition is wrong: ' + '; '.join(bad[:2]))
 
 
 def factor_at(fn, use_stmt_pred, env, params_env):
@@ -422,6 +418,7 @@ def check_affine_algebra(ctx, db):
         ctx.check(out is not None and alg.equal(out, want), 'R-ALGEBRA', 'Reference::repeat_and_transform/point-map|reflection=%s' % (g == -1), inner.loc(), 'every point of the referenced geometry is mapped by origin + offset + m R(rotation) diag(1, %+d) p' % g,
                   'the point map is %s, the documented map gives %s' % (alg.render(out) if out is not None else 'unset', alg.render(want)))
     # ---- 2. placement composition
+    symbolic_gap = set()
     for qn in ('gdstk::Reference::transform', 'gdstk::Label::transform'):
         f = db.fn(qn)
         ctx.touch(f)
@@ -453,7 +450,12 @@ def check_affine_algebra(ctx, db):
                             continue
                         alg.block([s_], env, None)
                 except S.Unsupported as e:
-                    raise AnalysisBroken('%s is outside the algebra: %s' % (qn, e))
+                    # a statement form the polynomial algebra does not read (a branch, a component store on a local): the same four
+                    # compositions are decided numerically by check_placement (interpretation); nothing is claimed symbolically here
+                    symbolic_gap.add(qn)
+                    ctx.ok('R-ALGEBRA', '%s/composition|x_refl=%s,x_reflection=%s' % (qn.replace('gdstk::', ''), g == -1, fl == -1), f.loc(), 'not in symbolic form (%s): decided numerically by %s/composition' % (e, qn.replace('gdstk::', '')))
+                    n += 1
+                    continue
                 px, py = S.atom('px'), S.atom('py')
                 p = alg.vec(px, py)
                 zero = alg.vec(S.P(0), S.P(0))
@@ -469,7 +471,8 @@ def check_affine_algebra(ctx, db):
                 ctx.check(ok, 'R-ALGEBRA', '%s/composition|x_refl=%s,x_reflection=%s' % (qn.replace('gdstk::', ''), g == -1, fl == -1), f.loc(), 'the updated placement equals T o P identically (origin, rotation %s, magnification product, reflection xor)' % ('-a + b' if g == -1 else 'a + b'),
                           'the updated placement maps p to %s, but T(P(p)) = %s' % (alg.render(alg.expand(got))[:260], alg.render(alg.expand(want))[:260]))
         flip = [x for x in f.walk() if x.k == 'CompoundAssignOperator' and x.op == '^=' and norm(x.child('lhs').text()).endswith('x_reflection') and norm(x.child('rhs').text()) == 'x_refl']
-        ctx.check(len(flip) == 1, 'R-ALGEBRA', '%s/reflection-xor' % qn.replace('gdstk::', ''), f.loc(), 'x_reflection ^= x_refl')
+        if qn not in symbolic_gap:
+            ctx.check(len(flip) == 1, 'R-ALGEBRA', '%s/reflection-xor' % qn.replace('gdstk::', ''), f.loc(), 'x_reflection ^= x_refl')
     ctx.require('R-ALGEBRA affine identities', n, 10)
 
 
@@ -600,6 +603,18 @@ def run(ctx):
     ctx.attempt(check_signs, ctx, db)
     ctx.attempt(check_length_fields, ctx, db)
     ctx.attempt(check_affine_algebra, ctx, db)
+    # the generic-element execution above reads a cursor, an index and a count-down loop alike as "the element": that the cursor of an
+    # element loop really moves from element to element is R-PARALLEL (an element cursor set to the start of an array and dereferenced in a
+    # loop is advanced in that loop), over every function of the element sources
+    from .. import parallel
+    nc = 0
+    for f_ in db.functions:
+        if f_.body is not None and f_.relfile() in ('src/flexpath.cpp', 'src/robustpath.cpp', 'src/polygon.cpp', 'src/reference.cpp', 'src/label.cpp'):
+            k_ = parallel.check_cursors(ctx, f_)
+            if k_:
+                ctx.touch(f_)
+            nc += k_
+    ctx.require('R-PARALLEL element cursors', nc, 30)
     from . import C08   # RobustPath keeps its transform as a matrix: the matrix methods are C08's obligations, shared
     ctx.attempt(C08.check_trafo_algebra, ctx, db)
     ctx.attempt(C08.check_unscaled_bookkeeping, ctx, db)   # a scaled robust path must be outlined with scaled widths: the unscaled builder memory is not read
